@@ -105,3 +105,11 @@ Theorem C12_layout_crossings_all_positioners : forall (A : Type) (eqA : A -> A -
           (filter big (Populate.components (Populate.apply_sizes A eqA fixed sizes ids g))) xs.
 Proof. exact G9_layout_crossings'. Qed.
 Print Assumptions C12_layout_crossings_all_positioners.
+
+(* ---------- regenerated from the source on every run (translator): the ordering phase does not read node identifiers, as its
+   model, which contains none, assumes ---------- *)
+From Coq Require Import String.
+From Autog Require Facts FactsChecks.
+Theorem C12_code_reads_no_identifier : FactsChecks.id_reads_allowed_in "internal/phase3/"%string = true.
+Proof. vm_compute. reflexivity. Qed.
+Print Assumptions C12_code_reads_no_identifier.
